@@ -98,6 +98,11 @@ fn shim_into_vec(m: HashMap<String, Vec<(usize, usize)>>) -> (r: Vec<(String, Ve
             r@.len() == m@.len(),
 { m.into_iter().collect() }
 
+// number of (start, end) ranges in the first n entries (C16: work bound of SlotMapData::new)
+pub open spec fn ranges_upto(es: Seq<(String, Vec<(usize, usize)>)>, n: int) -> int
+    decreases n
+{ if n <= 0 || n > es.len() { 0 } else { ranges_upto(es, n - 1) + es[n - 1].1@.len() } }
+
 pub open spec fn tab_inv(slot_arr: Seq<Option<usize>>, addrs: Seq<String>, es: Seq<(String, Vec<(usize, usize)>)>, n: int, cur: Seq<(usize, usize)>) -> bool {
     &&& slot_arr.len() == 16384
     &&& forall|s: int| 0 <= s < 16384 ==> match #[trigger] slot_arr[s] {
